@@ -14,6 +14,9 @@ JSON_PALETTE = [
     DATE, "2030-01-01T00:00:00", "2030-13-01T00:00:00Z", "2030-02-30T00:00:00Z", "2030-1-1T0:0:0Z", "2030-01-01t00:00:00z",
     "2030-01-01T00:00:60Z", "٢٠٣٠-٠١-٠١T٠٠:٠٠:٠٠Z", " 2030-01-01T00:00:00Z", "2030-01-01T00:00:00Z\n", "0000-01-01T00:00:00Z",
     "9999-12-31T23:59:59Z", "10000-01-01T00:00:00Z",
+    "2031-07-13T05:46:+5Z", "2031-07-13T 5:46:45Z", "2031-07-13T05: 6:45Z", "2031-07-13T05:46:5\nZ", "2_31-07-13T05:46:45Z", "2031-07-13T05:46:4_Z",
+    "2031-07-13T05:46:\t5Z", "2031- 7-13T05:46:45Z", "2031-07- 3T05:46:45Z", "+031-07-13T05:46:45Z", "2031-07-13T-5:46:45Z", "2031-07-13T05:46:45z",
+    "2031-07-13t05:46:45Z", "2031-07-13T05:46:45\u200bZ", "2031/07/13T05:46:45Z", "2031-07-13T05.46.45Z", "2031-07-13T24:00:00Z", "2031-07-13T05:60:00Z",
     HK, HK.upper(), HK[:-1], HK + "a", HK[:-2], " " + HK, HK + "\n", "0x" + HK[2:], SIG, SIG[:-2], "ab", "abc", "zz",
     [], {}, [HK], [HK, HK], [HK, HK2], [HK.upper()], [1], [None], [[]], [{}], {"a": 1}, {"": None},
     {"pubkeys": [], "threshold": 1}, {"pubkeys": [HK], "threshold": 1}, {"pubkeys": [HK], "threshold": 0},
